@@ -112,8 +112,16 @@ func (r *runner) load(dirs []string) {
 		dirs = all
 	}
 	p, err := interp.Load(r.repo, ov, dirs)
+	for _, d := range interp.Dropped {
+		fmt.Printf("INCONCLUSIVE harness-does-not-compile-against-this-tree %s\n", d)
+	}
 	if err != nil {
 		fmt.Fprintln(os.Stderr, "load:", err)
+		if len(interp.Dropped) > 0 {
+			// the tree itself compiles, the harnesses do not fit it: nothing was decided, nothing is alleged
+			fmt.Printf("%s %s: harnesses=0 (no harness compiles against this tree) violations=0\n", r.prop, r.tier)
+			os.Exit(0)
+		}
 		os.Exit(2)
 	}
 	p.LoadSeconds = time.Since(t0).Seconds()
